@@ -74,10 +74,18 @@ func listing(id string, r lint.Registry) ev.M {
 // listingOf judges a listing (from WriteJSON, or printed by the tool's -list-lints-json) against the registry it describes.
 func listingOf(id string, r lint.Registry, text []byte) ev.M {
 	buf := bytes.NewBuffer(text)
-	registered := len(r.Names())
-	lines := 0
+	// what is expected: one line per registered lint of every kind - as a multiset of (name, description, citation, source),
+	// because a name need only be unique within its kind
+	want := map[string]int{}
+	registered := 0
+	for _, k := range []string{"cert", "crl", "ocsp"} {
+		for _, l := range lintsOf(r, k) {
+			want[l.Name+"\x00"+l.Meta.Description+"\x00"+l.Meta.Citation+"\x00"+string(l.Meta.Source)]++
+			registered++
+		}
+	}
+	lines, matched := 0, 0
 	allDecode, allMatch, allKnown := true, true, true
-	names := map[string]bool{}
 	for _, ln := range bytes.Split(buf.Bytes(), []byte("\n")) {
 		if len(bytes.TrimSpace(ln)) == 0 {
 			continue
@@ -96,22 +104,16 @@ func listingOf(id string, r lint.Registry, text []byte) ev.M {
 		if err := json.Unmarshal(raw["source"], &src); err != nil {
 			allKnown = false
 		}
-		names[name] = true
-		found := false
-		for _, k := range []string{"cert", "crl", "ocsp"} {
-			if md, ok := metaOf(r, k, name); ok {
-				found = true
-				if md.Description != desc || md.Citation != cit || md.Source != src {
-					allMatch = false
-				}
-			}
-		}
-		if !found {
-			allMatch = false
+		key := name + "\x00" + desc + "\x00" + cit + "\x00" + string(src)
+		if want[key] > 0 {
+			want[key]--
+			matched++
+		} else {
+			allMatch = false // a line that is no registered lint's (or one lint listed once too often)
 		}
 	}
 	return ev.M{"ev": "Listing", "id": id, "lines": lines, "registered": registered, "allDecode": allDecode, "allMatch": allMatch,
-		"allSourcesKnown": allKnown, "distinctNames": len(names)}
+		"allSourcesKnown": allKnown, "distinctNames": matched}
 }
 
 // failingWriter accepts `left` bytes and then fails (or, with short, reports a short write without an error).
@@ -305,6 +307,12 @@ func cmdCodec(args []string) {
 			w.Emit(listingOf("tool -list-lints-json", tool, outb))
 		}
 		os.RemoveAll(work)
+	}
+	// last of all (it makes the registry one that Filter can no longer copy): one name in two kinds - the registry only asks for
+	// names to be unique within a kind - and each of the two lints still has its own line
+	for _, ms := range []mockSpec{{Name: "e_verif_late_cert", Kind: "crl", Source: lint.Community}, {Name: "e_verif_cert_details", Kind: "ocsp", Source: lint.RFC6960}} {
+		registerMock(ms)
+		w.Emit(listing("global-with-the-name-"+ms.Name+"-in-two-kinds", g))
 	}
 	total := w.N
 	w.Close()
